@@ -368,6 +368,7 @@ def run(ctx):
                 'vakt.audit and vakt.guard; per call: record counts, effect, candidates/deciders identity and order, '
                 'rendered text vs documented text; model audit (candidates/deciders by uid) compared; cached-guard '
                 'ask/mutate histories with hit/miss classification from cache.info(); non-trivial = >=1 matching policy')
+    out.rule += '; plus guards constructed before the log levels are raised and the handlers attached'
     return out
 
 
